@@ -2,16 +2,16 @@ INIT Init
 NEXT Next
 CONSTANTS
   SpeciesSeq <- Species5
-  Catalog <- Cat6
+  Catalog <- Cat14
   Comp <- NoComp
   UseComp = FALSE
-  MaxRx = 1
+  MaxRx = 3
   AllowDup = FALSE
-  Modes <- Modes_Pair
-  MaxSys = 2
+  Modes <- Modes_Two
+  MaxSys = 1
   MaxOps = 0
   Preds <- Preds_None
-  QueryKinds <- Q_Pair
+  QueryKinds <- Q_Dot
   ConcGrid <- G_None
   YieldK <- K_None
   TerminalQueries = TRUE
